@@ -369,6 +369,25 @@ EXTRA_TEXT = {
 }
 
 
+
+# rounds 8-10 (waves w8, w9, w10 of seeded changes): appended to the level texts
+ROUNDS_8_10 = {
+    "C01": " Rounds 8-10: a dimension triple on offset scales (degC, degF, s); a symbol redefined with another dimension at the same scale.",
+    "C03": " Rounds 8-10: the same source object converted to another unit of the target's name just before the judged conversion.",
+    "C04": " Rounds 8-10: where= masks that broadcast (lower rank, lists, leading flags) in product reductions; .dot / np.dot with out= (buffer and returned object); in-place operators on 0-d quantities and reductions of one leaf whose unit cancels into a number.",
+    "C06": " Rounds 8-10: np.pad with fill values handed over as quantities (single, pair, nested pairs, lists).",
+    "C07": " Rounds 8-10: np.pad with fill values handed over as quantities (single, pair, nested pairs, lists), each re-expressed on its own.",
+    "C10": " Rounds 8-10: a dimension declared AGAIN with another unit after the system was used.",
+    "C11": " Rounds 8-10: to_string()/from_string() as a hop for quantities (texts from_string refuses carry no verdict).",
+    "C12": " Rounds 8-10: conversions whose TARGET string is the edited symbol as history events.",
+    "C15": " Rounds 8-10: every constant name of the unyt.physical_constants module present in every namespace filled by add_constants.",
+    "C17": " Rounds 8-10: all twelve ordered member pairs of the spectral equivalence on integer data against exact rationals.",
+    "C18": " Rounds 8-10: the copying equivalence call right after the in-place call with the same equivalence leaves its operand alone.",
+    "C19": " Rounds 8-10: the other unit system's electromagnetic counterpart as a wrong-dimension argument of the decorators.",
+}
+for _k, _v in ROUNDS_8_10.items():
+    EXTRA_TEXT[_k] = EXTRA_TEXT.get(_k, "") + _v
+
 def main():
     checks = []
     for pid in ALL:
